@@ -113,3 +113,20 @@ type WSafeDet struct {
 func (e *WSafeDet) Error() string         { return e.Msg + ": " + e.Err.Error() }
 func (e *WSafeDet) Unwrap() error         { return e.Err }
 func (e *WSafeDet) SafeDetails() []string { return e.Details }
+
+// WAs is a prefix-style wrapper with Unwrap and an As method that fills a
+// *Val target with its own value (Val is not the type of any layer here).
+type WAs struct {
+	Msg string
+	Err error
+}
+
+func (e *WAs) Error() string { return e.Msg + ": " + e.Err.Error() }
+func (e *WAs) Unwrap() error { return e.Err }
+func (e *WAs) As(target interface{}) bool {
+	if p, ok := target.(*Val); ok {
+		*p = Val{Msg: e.Msg, Tag: 503}
+		return true
+	}
+	return false
+}
